@@ -5,7 +5,7 @@
    born at b" in the canonical pairing (C05_pairing_unique); [bnd D J v] = v is a boundary of the complex K_J made of
    the first J cells; [below w b] = the chain w only involves cells older than b. *)
 From Coq Require Import ZArith List Znumtheory.
-Require Import Reduce ReduceExec RepCycle.
+Require Import Reduce ReduceExec RepCycle PosNeg.
 Local Open Scope Z_scope.
 
 (* what the run-time checker applied to every returned representative establishes *)
@@ -57,6 +57,26 @@ Theorem C08_boundary_from_death : forall p, prime p -> forall n D R z b d,
   exists w, below p n w b /\ bnd p n D (S d) (fun i => z i - w i).
 Proof. exact boundary_from_death. Qed.
 Print Assumptions C08_boundary_from_death.
+
+(* the youngest cell of a representative is a BIRTH cell: whatever reduced decomposition is looked at, the column of the
+   youngest cell of a cycle is zero (coq/PosNeg.v) - a chain accepted by check_rep for the cell b can only stand for a
+   bar born at b, and that bar exists in the canonical pairing *)
+Theorem C08_rep_birth_is_positive : forall p, prime p -> forall n D R F z b,
+  check_rep p n D z b = true -> check_any p n D R F = true -> is_zero p n (to_mat R b).
+Proof.
+  intros p Hp n D R F z b Hz Hc.
+  destruct (check_rep_sound p n D z b Hz) as [Hl Hcy].
+  destruct (check_any_sound p Hp n D R F Hc) as [Ht Hr].
+  exact (cycle_low_is_positive p Hp n (to_mat D) (to_mat R) (zvec z) b Ht Hr Hcy Hl).
+Qed.
+Print Assumptions C08_rep_birth_is_positive.
+
+(* and in a chain complex the death cell of a bar is never the birth cell of another one *)
+Theorem C08_birth_column_is_zero : forall p, prime p -> forall n D R j b,
+  (forall k, (k < n)%nat -> cycle p n D (D k)) ->
+  tri p n D R -> reduced p n R -> (j < n)%nat -> is_low p n (R j) b -> is_zero p n (R b).
+Proof. exact birth_column_is_zero. Qed.
+Print Assumptions C08_birth_column_is_zero.
 
 (* the pairing the bars refer to is well defined (shared with C05) *)
 Theorem C08_pairing_unique : forall p, prime p -> forall n D R1 R2,
